@@ -7,6 +7,31 @@ ids = subprocess.run([f'{V}/bin/shverif', 'list'], capture_output=True, text=Tru
 props = [json.loads(l) for l in open(f'{V}/properties.jsonl')]
 baseline = json.load(open('/root/.vp/BASELINE.json'))['cmd']
 checks, na = [], []
+
+def extra_clauses():
+    """Clauses added after the first rule tables (props/extra_*.go): the `c.Decides +=` texts, per property."""
+    import re, glob
+    out = {}
+    for f in sorted(glob.glob(f'{V}/checker/props/extra_*.go')):
+        src = open(f).read()
+        fn2prop = {}
+        for m in re.finditer(r'Extend\("(C\d\d)",\s*(\w+)', src):
+            fn2prop[m.group(2)] = m.group(1)
+        parts = re.split(r'^func ', src, flags=re.M)
+        for part in parts[1:]:
+            name = re.match(r'(\w+)\(', part)
+            if not name:
+                continue
+            fn = name.group(1)
+            prop = fn2prop.get(fn)
+            if fn == 'runC31Deadline':
+                prop = 'C31'
+            if not prop:
+                continue
+            for d in re.findall(r'c\.Decides \+= "((?:[^"\\]|\\.)*)"', part):
+                out.setdefault(prop, []).append(d.strip().replace('\\"', '"').replace('\\\\', '\\'))
+    return out
+EXTRA = extra_clauses()
 for p in props:
     pid = p['id']
     cl = claims.get(pid, {})
@@ -20,7 +45,7 @@ for p in props:
             "engine": "shverif",
             "level_claimed": {
                 "category": "other",
-                "text": cl.get('text', ''),
+                "text": cl.get('text', '') + ((' Clauses added after seeded changes and probes (each a structural necessary condition with its own positive control): ' + ' '.join(EXTRA[pid])) if pid in EXTRA else ''),
                 "design_ref": f"DESIGN.md section 4, {pid}",
             },
             "level_note": cl.get('note', "Trusted: go/types, go/ssa, go/packages (x/tools v0.29.0); the rule tables in checker/props (each allow-list entry with its reason); documented behaviour of the Go standard library. Object identity is approximated by SSA value identity (no pointer analysis)."),
